@@ -257,7 +257,7 @@ _base = {}
 
 def base_code():
     if 'code' not in _base:
-        src = "DIM SHARED zg%\nzg% = 11\nzx% = 22\nzy% = 33\nzl& = 44\n"
+        src = "DIM SHARED zg%\nzg% = 11\nzx% = 22\nzy% = 33\nzl& = 44\nzgs$ = \"guard\"\n"
         c = rt.compile_src(src, 0, False, want_bytes=False)
         assert c.status == 'ok', c.msg
         _base['code'] = c.code
@@ -270,9 +270,11 @@ def exec_window(window, optimize, via_jump):
     instrs = list(code._instrs)
     # find the final 'ret' of main: last instruction
     assert instrs[-1].final[0] == 'ret'
-    pre = []
+    # a STRING guard below the window: a window that pops what it did not push (e.g. `ret`, which would
+    # consume the return address) hits it and is recognised as ill-formed by the TYPE_MISMATCH it causes
+    pre = [QvmInstr('push$', '"guard"')]
     if via_jump:
-        pre = [QvmInstr('push%', 9), QvmInstr('push%', 0), QvmInstr('jz', 'Lx')]
+        pre += [QvmInstr('push%', 9), QvmInstr('push%', 0), QvmInstr('jz', 'Lx')]
     w = [QvmInstr(*t) for t in window]
     post = [QvmInstr('push%', 111), QvmInstr('_label', 'Lend'), QvmInstr('halt')]
     if not any(t == ('_label', 'Lx') for t in window):
